@@ -11,6 +11,7 @@ import Cellml.Engine.Expr
 import Cellml.Engine.Struct
 import Cellml.Engine.Analyse
 import Cellml.Engine.Xml
+import Cellml.Engine.Attrs
 import Cellml.Engine.Legacy
 import Cellml.Engine.Valid
 import Cellml.Engine.World
@@ -54,6 +55,7 @@ def main (args : List String) : IO UInt32 := do
   | ["walk"] => loop stdin stdout Engine.Crash.answer; return 0
   | ["legacy"] => loop stdin stdout Engine.Legacy.answer; return 0
   | ["xml"] => loop stdin stdout Engine.Xml.answer; return 0
+  | ["attrs"] => loop stdin stdout Engine.Attrs.answer; return 0
   | ["analyse"] => loop stdin stdout Engine.Analyse.answer; return 0
   | ["struct"] => loop stdin stdout Engine.Struct.answer; return 0
   | ["expr"] => loop stdin stdout Engine.Expr.answer; return 0
